@@ -119,4 +119,39 @@ public class Accel {
     for (int i = 0; i < 4; i++) { out[i] = IntValue.gen((int) ((zh >>> (48 - 16 * i)) & 0xffff)); out[4 + i] = IntValue.gen((int) ((zl >>> (48 - 16 * i)) & 0xffff)); }
     return new TupleValue(out);
   }
+
+  // ---------------------------------------------------------------- BigNat (big-endian byte tuples, results normalised)
+  static BigInteger big(Value v) { byte[] b = bytes(v); return b.length == 0 ? BigInteger.ZERO : new BigInteger(1, b); }
+  static Value bigV(BigInteger x) {
+    if (x.signum() == 0) return new TupleValue(new Value[0]);
+    byte[] b = x.toByteArray();
+    int off = (b[0] == 0) ? 1 : 0;
+    Value[] e = new Value[b.length - off];
+    for (int i = off; i < b.length; i++) e[i - off] = IntValue.gen(b[i] & 0xff);
+    return new TupleValue(e);
+  }
+  @TLAPlusOperator(identifier = "Add", module = "BigNat", warn = false)
+  public static Value bnAdd(Value a, Value b) { return bigV(big(a).add(big(b))); }
+  @TLAPlusOperator(identifier = "Sub", module = "BigNat", warn = false)
+  public static Value bnSub(Value a, Value b) { return bigV(big(a).subtract(big(b))); }
+  @TLAPlusOperator(identifier = "Mul", module = "BigNat", warn = false)
+  public static Value bnMul(Value a, Value b) { return bigV(big(a).multiply(big(b))); }
+  @TLAPlusOperator(identifier = "Mod", module = "BigNat", warn = false)
+  public static Value bnMod(Value a, Value m) { return bigV(big(a).mod(big(m))); }
+  @TLAPlusOperator(identifier = "Cmp", module = "BigNat", warn = false)
+  public static Value bnCmp(Value a, Value b) { return IntValue.gen(big(a).compareTo(big(b))); }
+  @TLAPlusOperator(identifier = "ModAdd", module = "BigNat", warn = false)
+  public static Value bnModAdd(Value a, Value b, Value m) { return bigV(big(a).add(big(b)).mod(big(m))); }
+  @TLAPlusOperator(identifier = "ModSub", module = "BigNat", warn = false)
+  public static Value bnModSub(Value a, Value b, Value m) { return bigV(big(a).subtract(big(b)).mod(big(m))); }
+  @TLAPlusOperator(identifier = "ModMul", module = "BigNat", warn = false)
+  public static Value bnModMul(Value a, Value b, Value m) { return bigV(big(a).multiply(big(b)).mod(big(m))); }
+  @TLAPlusOperator(identifier = "ModExp", module = "BigNat", warn = false)
+  public static Value bnModExp(Value a, Value e, Value m) { return bigV(big(a).modPow(big(e), big(m))); }
+  @TLAPlusOperator(identifier = "ModInv", module = "BigNat", warn = false)
+  public static Value bnModInv(Value a, Value m) {
+    BigInteger mm = big(m), aa = big(a).mod(mm);
+    return bigV(aa.signum() == 0 ? BigInteger.ZERO : aa.modPow(mm.subtract(BigInteger.TWO), mm));
+  }
+
 }
